@@ -55,6 +55,26 @@ func Loc(name string) *time.Location {
 	if name == "UTC" || name == "" {
 		return time.UTC
 	}
+	if strings.HasPrefix(name, "Fixed/") {
+		// "Fixed/<abbreviation>/<offset in seconds>": a fixed zone as a host without tz database entry (or a time parsed with
+		// a numeric offset) has it - the abbreviation may be empty or anything else
+		rest := name[len("Fixed/"):]
+		if i := strings.LastIndex(rest, "/"); i >= 0 {
+			off := 0
+			neg := false
+			for _, ch := range rest[i+1:] {
+				if ch == '-' {
+					neg = true
+				} else if ch >= '0' && ch <= '9' {
+					off = off*10 + int(ch-'0')
+				}
+			}
+			if neg {
+				off = -off
+			}
+			return time.FixedZone(rest[:i], off)
+		}
+	}
 	if name == Synthetic {
 		synthOnce.Do(func() { synth = JumpsToday() })
 		if synth != nil {
@@ -67,6 +87,13 @@ func Loc(name string) *time.Location {
 		panic("zones: cannot load " + name)
 	}
 	return l
+}
+
+// Odd returns the names of process zones no tz database has: fixed zones whose abbreviation is empty, numeric, blank,
+// non-ASCII or long, with ordinary, extreme and odd offsets.
+func Odd() []string {
+	return []string{"Fixed//19800", "Fixed//0", "Fixed//-10800", "Fixed/+0530/19800", "Fixed/-03/-10800", "Fixed/ /3600", "Fixed/Ω/7200", "Fixed/Mitteleuropäische Sommerzeit/7200",
+		"Fixed/Z/0", "Fixed/a b/-34200", "Fixed//50400", "Fixed//-43200", "Fixed/X/86399", "Fixed//1", "Fixed/\"/3600", "Fixed/UTC/3600"}
 }
 
 // Spread returns a fixed selection of n zones: the known trouble-makers first (midnight DST
